@@ -82,19 +82,11 @@ def d4_7(ctx):
             ok = any(bn in dom for bn in builds)
             ctx.check(ok, ckey(fn, f"message-built:{recv}#{k_}"), r.ast, f"{recv}.build_message() precedes the measurement of {recv}.message",
                       f"`{src(r.ast).splitlines()[0][:80]}` measures {recv}.message before {recv}.build_message(): an unbuilt message is b'' (length 0), so the size compared with the connection size omits the request/reply overhead and data within a few bytes of the limit is not fragmented")
-    ts = ctx.model.func(f"{LX}:_tag_return_size")
-    f = ts.node
-    p = f.args.args[0].arg
-    rets = [r for r in walk(f) if isinstance(r, ast.Return)]
-    width_atomic = width_struct = False
-    for n in walk(f):
-        if isinstance(n, ast.If) and "tag_type" in src(n.test) and ctx.folder.eval(n.test.comparators[0], ts.module) == "atomic":
-            wa = [s for s in n.body if isinstance(s, ast.Assign)]
-            ws = [s for s in n.orelse if isinstance(s, ast.Assign)]
-            width_atomic = bool(wa) and src(wa[0].value).replace(" ", "").replace('"', "'") in ("DataTypes[tag_info['data_type']].size", "DataTypes[tag_info['data_type_name']].size")
-            width_struct = bool(ws) and src(ws[0].value).replace(" ", "").replace('"', "'") == "tag_info['data_type']['template']['structure_size']"
-    mult = [n for n in walk(f) if isinstance(n, ast.Assign) and isinstance(n.value, ast.BinOp) and isinstance(n.value.op, ast.Mult) and {src(n.value.left).replace('"', "'"), src(n.value.right).replace('"', "'")} == {"size", f"{p}['elements']"}]
-    ctx.check(width_atomic and width_struct and len(mult) == 1 and len(rets) == 1 and atom_name(rets[0].value) == "size", ckey(ts), f, "reply data size = (type size | structure size) x elements", "_tag_return_size is not element width x element count")
+    # reply data size = (type size | structure size) x elements: decided by folding `_tag_return_size` on witness records
+    # (D1.19) - an earlier form compared the source text of the two width expressions and alarmed on a conditional expression
+    from .driver import d1_19
+
+    d1_19(ctx)
     # the builders add the request length (and the multi-service entry) to the estimate
     for b, extra in (("_read_build_multi_requests", 2), ("_read_build_single_request", 0)):
         fn = ctx.model.func(f"{LX}:LogixDriver.{b}")
